@@ -112,13 +112,31 @@ func RunCcelCase(cs map[string]any, id int, seed int64, bits int) Result {
 		case "revokedLeaf":
 			w["pckCrlRev"] = "leaf"
 		}
-		c := gen.Build(w, gen.Params{Seed: rng.Int63(), Header: sq.Header, Body: body})
+		wseed := rng.Int63()
+		c := gen.Build(w, gen.Params{Seed: wseed, Header: sq.Header, Body: body})
 		if c.Unrealizable != "" {
 			res.Skip = c.Unrealizable
 			continue
 		}
 		opts := rtmr.TdxDefaultOpts(s.nonce)
 		lvl := int(cs["lvl"].(float64))
+		var priorEv Event
+		if cs["prior"] == "sameOpts" {
+			// the same options value first serves the genuine quote of this platform (same keys and certificates)
+			c0 := gen.Build(gen.World{"modBranch": "modOk"}, gen.Params{Seed: wseed, Header: sq.Header, Body: sq.Body})
+			opts.Verification = VerifyOpts(c0, map[string]any{"gc": false, "cr": false})
+			var st0 *state.FirmwareLogState
+			o0 := Guard(30*time.Second, func() error {
+				var err error
+				st0, err = rtmr.ParseCcelWithTdQuote(s.log, s.table, MsgFromQuote(c0.Q), &opts)
+				return err
+			})
+			r0 := "error"
+			if o0.Verdict() == "accept" && st0 != nil {
+				r0 = "state"
+			}
+			priorEv = Event{"ev": "Prior", "result": r0, "err": o0.ErrText()}
+		}
 		opts.Verification = VerifyOpts(c, []map[string]any{{"gc": false, "cr": false}, {"gc": true, "cr": false}, {"gc": true, "cr": true}}[lvl])
 		if cs["ld"] == "unsupported" {
 			opts.ExtractOpt = extract.Opts{}
@@ -140,6 +158,24 @@ func RunCcelCase(cs map[string]any, id int, seed int64, bits int) Result {
 			pol.TdQuoteBodyOptions.Rtmrs = [][]byte{nil, gen.RandBytes(rng, 48), nil, nil}
 		case "minQeAbove":
 			pol.HeaderOptions.MinimumQeSvn = 65535
+		case "minTeeLaterAbove":
+			tee := gen.FieldOf("body", "tee_tcb_svn", body)
+			m := append([]byte{}, tee...)
+			i, j := -1, -1
+			for k := range m {
+				if m[k] > 0 && i < 0 {
+					i = k
+				} else if i >= 0 && m[k] < 255 {
+					j = k
+				}
+			}
+			if i < 0 || j < 0 {
+				res.Skip = "no pair of TEE_TCB_SVN components to lower and raise"
+				continue
+			}
+			m[i]--
+			m[j]++
+			pol.TdQuoteBodyOptions.MinimumTeeTcbSvn = m
 		}
 		msg := MsgFromQuote(c.Q)
 		var st *state.FirmwareLogState
@@ -163,8 +199,11 @@ func RunCcelCase(cs map[string]any, id int, seed int64, bits int) Result {
 		default:
 			result = "neither"
 		}
-		res.Events = append(res.Events, Event{"ev": "Call", "case": id, "input": cs, "bit": bit, "measured": s.measured},
-			Event{"ev": "Return", "result": result, "err": out.ErrText()})
+		res.Events = append(res.Events, Event{"ev": "Call", "case": id, "input": cs, "bit": bit, "measured": s.measured})
+		if priorEv != nil {
+			res.Events = append(res.Events, priorEv)
+		}
+		res.Events = append(res.Events, Event{"ev": "Return", "result": result, "err": out.ErrText()})
 	}
 	return res
 }
